@@ -320,6 +320,18 @@ def gen_object_specs(rng, deep=False):
             c["enc"] = enc
         return c
 
+    def with_modes(ops, force=False):
+        """insert `.eval()` / `.train()` switches (module mode is a configuration no value may depend on)"""
+        if not (force or rng.random() < 0.5):
+            return ops
+        ops = list(ops)
+        first = next((i for i, c_ in enumerate(ops) if c_["op"] != "double"), 0)
+        i = first if force else rng.randrange(first, len(ops))
+        ops.insert(i, {"op": "eval"})
+        if rng.random() < 0.5 and i + 2 < len(ops):
+            ops.insert(rng.randrange(i + 2, len(ops) + 1), {"op": "train"})
+        return ops
+
     # (a) dtype families: one object, low-precision call(s), then float64 (rule-level and likelihood-level)
     for rep in range(6 if deep else 3):
         for lowp in ("float16", "bfloat16", "float32"):
@@ -330,7 +342,7 @@ def gen_object_specs(rng, deep=False):
                 if rng.random() < 0.4:
                     ops += [call("GHQ", "poly", rng.choice(LOWP))]
                 ops += [call("GHQ", "poly", "float64"), call("GHQ", "poly", "float64", dist="diag")]
-                specs.append({"kind": "object-history", "object": "GHQ", "built_under": built, "N": N, "par": None, "ops": ops})
+                specs.append({"kind": "object-history", "object": "GHQ", "built_under": built, "N": N, "par": None, "ops": with_modes(ops)})
     for rep in range(5 if deep else 2):
         for kind in LIKS:
             lowp = rng.choice(["float16", "float16", "bfloat16", "float32"])
@@ -342,7 +354,7 @@ def gen_object_specs(rng, deep=False):
             if rng.random() < 0.5:
                 ops += [call(kind, rng.choice(["elp", "log_marginal", "poly"]), rng.choice(LOWP))]
             ops += [call(kind, "elp", "float64"), call(kind, "log_marginal", "float64"), call(kind, "poly", "float64")]
-            specs.append({"kind": "object-history", "object": kind, "built_under": built, "N": N, "par": par(), "ops": ops})
+            specs.append({"kind": "object-history", "object": kind, "built_under": built, "N": N, "par": par(), "ops": with_modes(ops)})
     # (b) label families: ONE BernoulliLikelihood fed both encodings / single-class first batches
     def labels(enc, cls, n):
         if cls == "mixed":
@@ -356,7 +368,7 @@ def gen_object_specs(rng, deep=False):
             [("pm", "neg"), ("01", "pos"), ("01", "neg")], [("01", "mixed"), ("01", "pos"), ("pm", "pos"), ("pm", "mixed")]]
     for _ in range(10 if deep else 4):
         fams.append([(rng.choice(["01", "pm"]), rng.choice(["mixed", "pos", "neg"])) for _ in range(rng.choice([3, 4, 5]))])
-    for fam in fams:
+    for fi, fam in enumerate(fams):
         n = rng.choice([3, 4])
         ops = []
         for enc, cls in fam:
@@ -364,13 +376,14 @@ def gen_object_specs(rng, deep=False):
             if rng.random() < 0.3:
                 ops.append(call("Bernoulli", rng.choice(["log_marginal", "marginal"]), "float64", n=n))
         specs.append({"kind": "object-history", "object": "Bernoulli", "built_under": "float64", "N": rng.choice([10, None]),
-                      "par": par(), "ops": ops, "family": "labels:" + ">".join(f"{e}:{c}" for e, c in fam)})
+                      "par": par(), "ops": with_modes(ops, force=(fi % 3 == 2)),
+                      "family": "labels:" + ">".join(f"{e}:{c}" for e, c in fam)})
     # (c) observation / shape / distribution-kind families in float64 on one object
     for rep in range(4 if deep else 2):
         for kind in LIKS:
             ops = [call(kind, rng.choice(["elp", "log_marginal", "marginal", "poly"]), "float64") for _ in range(rng.choice([3, 4]))]
             specs.append({"kind": "object-history", "object": kind, "built_under": "float64", "N": rng.choice([5, 20, None]),
-                          "par": par(), "ops": ops})
+                          "par": par(), "ops": with_modes(ops, force=(rep == 0))})
     return specs
 
 
@@ -454,6 +467,14 @@ def run_object(spec, mp_logp):
         snap = snapshot(obj)
         done = []
         for c in spec["ops"]:
+            if c["op"] in ("eval", "train"):
+                getattr(obj, c["op"])()          # only the `training` flags may change (not part of the snapshot)
+                now = snapshot(obj)
+                if now != snap:
+                    state.append((f"{kind}", f"{kind} object: .{c['op']}() changed " + "; ".join(snapshot_diff(snap, now)[:4])))
+                    snap = now
+                done.append(c["op"])
+                continue
             label = c["op"] + ("" if c["op"] == "double" else f"[{c['dtype']},{c['dist']}" + (f",{c['enc']}" if c.get("enc") == "pm" else "") + "]")
             if c["op"] == "double":
                 obj.double()
